@@ -55,8 +55,17 @@ func init() {
 	}
 }
 
-const userBase = testdirectory.DefaultUserDN
-const groupBase = testdirectory.DefaultGroupDN
+// the base DNs of the directory under test: the library's defaults, except in the custom-base pass
+var userBase = testdirectory.DefaultUserDN
+var groupBase = testdirectory.DefaultGroupDN
+
+// setBases switches the harness (pools, alphabets, reference sets) to other base DNs; directories started
+// afterwards are configured with them through WithDefaults.
+func setBases(u, g string) {
+	userBase, groupBase = u, g
+	poolUsers = []string{udn("alice"), udn("bob"), udn("eve"), udn("Alice"), udn("zo\u00eb"), udn(`doe\2Cjane`)}
+	poolGroups = []string{gdn("admin"), gdn("dev")}
+}
 
 func udn(n string) string { return "cn=" + n + "," + userBase }
 func gdn(n string) string { return "cn=" + n + "," + groupBase }
@@ -156,6 +165,12 @@ func userSet(n int) []*refEntry {
 			{DN: udn("emptystr"), Attrs: []codec.Attr{{Type: "name", Vals: []string{"e"}}, {Type: "password", Vals: []string{""}}}},
 			// built as a struct literal (see liveUsers): only the string values are set
 			{DN: udn("literal"), Attrs: []codec.Attr{{Type: "password", Vals: []string{"pw-literal", "second"}}}}}
+	case 4:
+		// duplicate DNs (only used by the bind matrix of C19): any of the entries with the DN can match
+		dup := mk("alice")
+		dup.Attrs[2].Vals = []string{"pw-second"}
+		nopw := &refEntry{DN: udn("bob"), Attrs: []codec.Attr{{Type: "name", Vals: []string{"b"}}}}
+		return []*refEntry{nopw, mk("alice"), mk("eve"), dup, mk("bob")}
 	default:
 		// what testdirectory.NewUsers(names, WithMembersOf("admin", "staff")) builds (see sharedUsers): every
 		// entry is handed the same memberOf slice
@@ -173,7 +188,7 @@ var sharedNames = []string{"alice", "bob", "eve"}
 // share one value slice for memberOf.
 func liveUsers(t testdirectory.TestingT, n int) []*gldap.Entry {
 	if n == 3 {
-		return testdirectory.NewUsers(t, sharedNames, testdirectory.WithMembersOf(t, "admin", "staff"))
+		return testdirectory.NewUsers(t, sharedNames, testdirectory.WithMembersOf(t, "admin", "staff"), testdirectory.WithDefaults(t, &testdirectory.Defaults{UserDN: userBase}))
 	}
 	es := toEntries(userSet(n))
 	if n == 2 {
@@ -341,7 +356,10 @@ func newDirEnv(kind string) *dirEnv {
 	if kind == "plain" || kind == "starttls" {
 		opts = append(opts, testdirectory.WithNoTLS(t))
 	}
-	d := testdirectory.Start(t, opts...)
+	if userBase != testdirectory.DefaultUserDN {
+		opts = append(opts, testdirectory.WithDefaults(t, &testdirectory.Defaults{UserDN: userBase, GroupDN: groupBase}))
+	}
+	d := startDirectory(t, opts...)
 	e := &dirEnv{d: d, t: t, kind: kind}
 	e.reconnect()
 	return e
@@ -507,6 +525,7 @@ func rdnFilter(dn string) string {
 	}
 	return "(" + rdn + ")"
 }
+
 var poolGroups = []string{gdn("admin"), gdn("dev")}
 
 // probe compares everything observable with the reference store. Returns findings as (prop, key, detail).
@@ -578,8 +597,10 @@ func (e *dirEnv) probe(c *Ctx, s *refStore) [][3]string {
 			pws = append(pws, "grp-pw")
 		}
 		if i := s.findUser(dn); i >= 0 {
-			if ai := firstAttr(s.Users[i], "password"); ai >= 0 && len(s.Users[i].Attrs[ai].Vals) > 0 {
-				pws = append(pws, s.Users[i].Attrs[ai].Vals...)
+			for _, u := range s.Users {
+				if ai := firstAttr(u, "password"); u.DN == dn && ai >= 0 && len(u.Attrs[ai].Vals) > 0 {
+					pws = append(pws, u.Attrs[ai].Vals...)
+				}
 			}
 		} else {
 			pws = append(pws, "pw-"+strings.TrimPrefix(strings.ToLower(short(dn)), "cn="))
@@ -724,6 +745,25 @@ func dirAlphabet(thorough bool) []dirOp {
 	return ops
 }
 
+// customBasePass: a directory started with other base DNs than the defaults (Defaults.UserDN / GroupDN):
+// the empty history and every history of one operation, probed like all others.
+func customBasePass(c *Ctx, prop string) {
+	setBases("ou=staff,dc=corp,dc=test", "ou=teams,dc=corp,dc=test")
+	defer setBases(testdirectory.DefaultUserDN, testdirectory.DefaultGroupDN)
+	env := newDirEnv("plain")
+	defer env.close()
+	if c.Mine() {
+		c.Count("custom_base_dn_histories", 1)
+		runHistory(c, env, prop, nil, false)
+	}
+	for _, a := range dirAlphabet(c.Thorough()) {
+		if c.Mine() {
+			c.Count("custom_base_dn_histories", 1)
+			runHistory(c, env, prop, []dirOp{a}, false)
+		}
+	}
+}
+
 func dirRun(c *Ctx, prop string) {
 	env := newDirEnv("plain")
 	defer env.close()
@@ -747,6 +787,7 @@ func dirRun(c *Ctx, prop string) {
 			}
 		}
 	}
+	customBasePass(c, prop)
 	depth := 2
 	// depth 3: quick = histories whose middle operation changes the store and whose ends are of different kinds;
 	// thorough = all
@@ -777,12 +818,16 @@ done:
 	}
 	// C19: the static matrix over the three transports
 	if prop == "C19" {
-		for _, kind := range []string{"tls", "starttls"} {
+		for _, kind := range []string{"tls", "starttls", "plain"} {
 			if !c.Mine() {
 				continue
 			}
 			e2 := newDirEnv(kind)
-			for _, set := range []int{0, 1, 2} {
+			sets := []int{0, 1, 2, 4}
+			if kind == "plain" {
+				sets = []int{4} // the other sets are part of the histories above
+			}
+			for _, set := range sets {
 				for _, anon := range []bool{false, true} {
 					h := []dirOp{{Kind: "setusers", Set: set}, {Kind: "setanon", Flag: anon}}
 					c.Count("transport_cases."+kind, 1)
